@@ -142,6 +142,19 @@ Theorem shamir_fewer_unconstrained : forall (F : Type) (f0 f1 : F) (fadd fsub fm
 Proof. exact shamir_fewer_closed. Qed.
 Print Assumptions shamir_fewer_unconstrained.
 
+(** ... and exactly t-1 >= 1 shares of a polynomial of degree exactly t-1 ([share] draws a
+    non-zero top coefficient) at distinct non-zero points never reconstruct the secret. *)
+Theorem shamir_one_fewer_differs : forall (F : Type) (f0 f1 : F) (fadd fsub fmul fdiv : F -> F -> F)
+    (fopp finvf : F -> F) (finv : F -> option F),
+  scalar_field_laws f0 f1 fadd fsub fmul fdiv fopp finvf finv ->
+  (forall x y : F, {x = y} + {x <> y}) ->
+  forall (secret : F) (coeffs xs : list F),
+  NoDup xs -> (forall x, In x xs -> x <> f0) -> length xs = length coeffs -> last coeffs f0 <> f0 ->
+  reveal F f0 f1 fadd fsub fmul finv
+    (map (fun x => (x, eval_share F f0 fadd fmul secret coeffs x)) xs) <> secret.
+Proof. exact shamir_one_fewer_closed. Qed.
+Print Assumptions shamir_one_fewer_differs.
+
 (** Non-vacuity: the rationals are an instance of the field and module hypotheses. *)
 Example shamir_hypotheses_satisfiable :
   let finv := fun x : Qc => if Qc_eq_dec x 0%Qc then None else Some (Qcinv x) in
